@@ -27,6 +27,7 @@ partial def encodeRVal : Tok.RVal → Sexp
   | .dict kvs => .list (sym "dict" :: kvs.map fun (k, v) => .list [encodeRVal k, encodeRVal v])
   | .call name items => .list (sym "call" :: .list (name.map ofNat) :: items.map encodeRVal)
   | .kwarg name v => .list [sym "kwarg", .list (name.map ofNat), encodeRVal v]
+  | .name s => ofStr "name" s
 
 /-- one layout configuration `(w rw smart)` -/
 def decodeCfg : Sexp → Option Cfg
